@@ -564,3 +564,299 @@ Proof.
     try subst x; try (assert (e <> x) by congruence); tauto.
 Qed.
 
+
+Lemma ixor_fold g it : ixor g it = fold_left toggle (edges (update [] it)) g.
+Proof. reflexivity. Qed.
+
+Theorem ixor_inv g it : CfgInv g -> CfgInv (ixor g it).
+Proof. intros Hinv. rewrite ixor_fold. apply fold_toggle_inv. exact Hinv. Qed.
+
+Theorem ixor_spec g it : CfgInv g ->
+  forall x, In x (edges (ixor g it)) <->
+            (In x (edges g) /\ ~ In x it) \/ (~ In x (edges g) /\ In x it).
+Proof.
+  intros Hinv x. rewrite ixor_fold.
+  pose proof (update_inv [] it CfgInv_nil) as [Hnd _].
+  rewrite (fold_toggle_spec _ Hnd g Hinv x).
+  pose proof (update_spec [] it x) as Hu. cbn [edges map In] in Hu.
+  assert (In x (edges (update [] it)) <-> In x it) as Hu'.
+  { unfold edges at 1. rewrite Hu. tauto. }
+  rewrite Hu'. reflexivity.
+Qed.
+
+(* ------------------------------------------------------------------ *)
+(* comparisons                                                          *)
+(* ------------------------------------------------------------------ *)
+
+Lemma forallb_mem_incl (l other : list edge) :
+  forallb (fun e => mem_edge e other) l = true <-> incl l other.
+Proof.
+  rewrite forallb_forall. unfold incl. split.
+  - intros H x Hin. apply mem_edge_spec. apply H. exact Hin.
+  - intros H x Hin. apply mem_edge_spec. apply H. exact Hin.
+Qed.
+
+Lemma edges_length g : length (edges g) = length g.
+Proof. unfold edges. apply map_length. Qed.
+
+Theorem le_set_spec g other : CfgInv g -> NoDup other ->
+  le_set g other = true <-> incl (edges g) other.
+Proof.
+  intros [He _] Hnd. unfold le_set. rewrite andb_true_iff, forallb_mem_incl, Nat.leb_le.
+  split.
+  - intros [_ H]. exact H.
+  - intros H. split; [|exact H]. rewrite <- edges_length. apply NoDup_incl_length; assumption.
+Qed.
+
+Theorem eq_set_spec g other : CfgInv g -> NoDup other ->
+  eq_set g other = true <-> (forall x, In x (edges g) <-> In x other).
+Proof.
+  intros Hinv Hnd. unfold eq_set. rewrite andb_true_iff, (le_set_spec g other Hinv Hnd), Nat.eqb_eq.
+  destruct Hinv as [He _]. split.
+  - intros [Hlen Hincl] x. split; [apply Hincl|].
+    revert x. apply (NoDup_length_incl He); [|exact Hincl]. rewrite edges_length. lia.
+  - intros H.
+    assert (incl (edges g) other) as H1 by (intros x Hx; apply H; exact Hx).
+    assert (incl other (edges g)) as H2 by (intros x Hx; apply H; exact Hx).
+    split; [|exact H1].
+    pose proof (NoDup_incl_length He H1) as L1. pose proof (NoDup_incl_length Hnd H2) as L2.
+    rewrite edges_length in L1, L2. lia.
+Qed.
+
+Theorem isdisjoint_spec g other :
+  isdisjoint g other = true <-> (forall x, In x other -> ~ In x (edges g)).
+Proof.
+  unfold isdisjoint. rewrite forallb_forall. split.
+  - intros H x Hin. apply contains_false. specialize (H x Hin).
+    destruct (contains g x); [discriminate H | reflexivity].
+  - intros H x Hin. apply H in Hin. apply contains_false in Hin. rewrite Hin. reflexivity.
+Qed.
+
+(* ------------------------------------------------------------------ *)
+(* steps and histories                                                  *)
+(* ------------------------------------------------------------------ *)
+
+(* the set a successful step produces, as a predicate over the set before *)
+Definition cop_post (o : cop) (S : edge -> Prop) (x : edge) : Prop :=
+  match o with
+  | CAdd e => S x \/ x = e
+  | CDiscard e => S x /\ x <> e
+  | CRemove e => S x /\ x <> e
+  | CPop (Some e) => S x /\ x <> e
+  | CPop None => False
+  | CClear => False
+  | CUpdate es => S x \/ In x es
+  | CIor es => S x \/ In x es
+  | CIand es => S x /\ In x es
+  | CIsub es => S x /\ ~ In x es
+  | CIxor es => (S x /\ ~ In x es) \/ (~ S x /\ In x es)
+  end.
+
+(* the error a step raises, if any, as a function of the set before *)
+Definition cop_fails (o : cop) (g : graph) (er : err) : Prop :=
+  match o with
+  | CRemove e => ~ In e (edges g) /\ er = EKey
+  | CPop w => (g = [] /\ er = EKey) \/
+              (g <> [] /\ er = EImpossible /\ match w with Some e => ~ In e (edges g) | None => True end)
+  | _ => False
+  end.
+
+Theorem cstep_ok g o g' : CfgInv g -> cstep g o = Ok g' ->
+  CfgInv g' /\ forall x, In x (edges g') <-> cop_post o (fun y => In y (edges g)) x.
+Proof.
+  intros Hinv. destruct o as [e|e|e|w| |es|es|es|es|es]; cbn [cstep cop_post].
+  - intros H. inversion H. subst g'. split; [apply add_inv; exact Hinv | apply add_spec].
+  - intros H. inversion H. subst g'. split; [apply discard_inv; exact Hinv | apply discard_spec; exact Hinv].
+  - intros H. apply (remove_ok g e g' Hinv) in H. destruct H as [_ [_ [H1 [H2 _]]]]. split; assumption.
+  - destruct g as [|m g0]; [intros H; discriminate H|].
+    destruct w as [e|]; [|intros H; discriminate H].
+    destruct (contains (m :: g0) e) eqn:C; intros H; [|discriminate H].
+    inversion H. subst g'. split; [apply discard_inv; exact Hinv | apply discard_spec; exact Hinv].
+  - intros H. inversion H. subst g'. split; [apply clear_inv|]. intros x. cbn. tauto.
+  - intros H. inversion H. subst g'. split; [apply update_inv; exact Hinv | apply update_spec].
+  - intros H. inversion H. subst g'. split; [apply ior_inv; exact Hinv | apply ior_spec].
+  - intros H. inversion H. subst g'. split; [apply iand_inv; exact Hinv | apply iand_spec; exact Hinv].
+  - intros H. inversion H. subst g'. split; [apply isub_inv; exact Hinv | apply isub_spec; exact Hinv].
+  - intros H. inversion H. subst g'. split; [apply ixor_inv; exact Hinv | apply ixor_spec; exact Hinv].
+Qed.
+
+Theorem cstep_err g o er : cstep g o = Err er <-> cop_fails o g er.
+Proof.
+  destruct o as [e|e|e|w| |es|es|es|es|es]; cbn [cstep cop_fails];
+    try (split; [intros H; discriminate H | intros H; destruct H]).
+  - unfold remove. destruct (contains g e) eqn:C.
+    + apply contains_spec in C. split; [intros H; discriminate H | intros [H _]; contradiction].
+    + apply contains_false in C. split.
+      * intros H. inversion H. auto.
+      * intros [_ ->]. reflexivity.
+  - destruct g as [|m g0].
+    + split.
+      * intros H. inversion H. left. auto.
+      * intros [[_ ->]|[H _]]; [reflexivity | congruence].
+    + destruct w as [e|].
+      * destruct (contains (m :: g0) e) eqn:C.
+        -- apply contains_spec in C. split; [intros H; discriminate H|].
+           intros [[H _]|[_ [_ H]]]; [discriminate H | contradiction].
+        -- apply contains_false in C. split.
+           ++ intros H. inversion H. right. split; [discriminate|]. auto.
+           ++ intros [[H _]|[_ [-> _]]]; [discriminate H | reflexivity].
+      * split.
+        -- intros H. inversion H. right. split; [discriminate|]. auto.
+        -- intros [[H _]|[_ [-> _]]]; [discriminate H | reflexivity].
+Qed.
+
+(* per-constructor summary *)
+Theorem cstep_spec g o : CfgInv g ->
+  match o with
+  | CAdd e => cstep g o = Ok (add g e) /\ CfgInv (add g e) /\
+              (forall x, In x (edges (add g e)) <-> In x (edges g) \/ x = e) /\
+              len (add g e) = (if contains g e then len g else len g + 1)
+  | CDiscard e => cstep g o = Ok (discard g e) /\ CfgInv (discard g e) /\
+              (forall x, In x (edges (discard g e)) <-> In x (edges g) /\ x <> e) /\
+              len (discard g e) = (if contains g e then len g - 1 else len g)
+  | CRemove e => if contains g e
+                 then cstep g o = Ok (discard g e) /\ CfgInv (discard g e) /\
+                      (forall x, In x (edges (discard g e)) <-> In x (edges g) /\ x <> e) /\
+                      len (discard g e) = len g - 1
+                 else cstep g o = Err EKey
+  | CPop w => match g with
+              | [] => cstep g o = Err EKey
+              | _ :: _ => match w with
+                          | Some e => if contains g e
+                                      then cstep g o = Ok (discard g e) /\ CfgInv (discard g e) /\
+                                           (forall x, In x (edges (discard g e)) <-> In x (edges g) /\ x <> e) /\
+                                           len (discard g e) = len g - 1
+                                      else cstep g o = Err EImpossible
+                          | None => cstep g o = Err EImpossible
+                          end
+              end
+  | CClear => cstep g o = Ok [] 
+  | CUpdate es => cstep g o = Ok (update g es) /\ CfgInv (update g es) /\
+              (forall x, In x (edges (update g es)) <-> In x (edges g) \/ In x es)
+  | CIor es => cstep g o = Ok (ior g es) /\ CfgInv (ior g es) /\
+              (forall x, In x (edges (ior g es)) <-> In x (edges g) \/ In x es)
+  | CIand es => cstep g o = Ok (iand g es) /\ CfgInv (iand g es) /\
+              (forall x, In x (edges (iand g es)) <-> In x (edges g) /\ In x es)
+  | CIsub es => cstep g o = Ok (isub g es) /\ CfgInv (isub g es) /\
+              (forall x, In x (edges (isub g es)) <-> In x (edges g) /\ ~ In x es)
+  | CIxor es => cstep g o = Ok (ixor g es) /\ CfgInv (ixor g es) /\
+              (forall x, In x (edges (ixor g es)) <->
+                         (In x (edges g) /\ ~ In x es) \/ (~ In x (edges g) /\ In x es))
+  end.
+Proof.
+  intros Hinv. destruct o as [e|e|e|w| |es|es|es|es|es]; cbn [cstep].
+  - split; [reflexivity|]. split; [apply add_inv; exact Hinv|]. split; [apply add_spec|].
+    destruct (contains g e) eqn:C; [apply len_add_present | apply len_add_absent]; exact C.
+  - split; [reflexivity|]. split; [apply discard_inv; exact Hinv|].
+    split; [apply discard_spec; exact Hinv|].
+    destruct (contains g e) eqn:C; [apply len_discard_present | apply len_discard_absent]; assumption.
+  - unfold remove. destruct (contains g e) eqn:C; [|reflexivity].
+    split; [reflexivity|]. split; [apply discard_inv; exact Hinv|].
+    split; [apply discard_spec; exact Hinv|]. apply len_discard_present; assumption.
+  - destruct g as [|m g0]; [reflexivity|]. destruct w as [e|]; [|reflexivity].
+    destruct (contains (m :: g0) e) eqn:C; [|reflexivity].
+    split; [reflexivity|]. split; [apply discard_inv; exact Hinv|].
+    split; [apply discard_spec; exact Hinv|]. apply len_discard_present; assumption.
+  - reflexivity.
+  - split; [reflexivity|]. split; [apply update_inv; exact Hinv | apply update_spec].
+  - split; [reflexivity|]. split; [apply ior_inv; exact Hinv | apply ior_spec].
+  - split; [reflexivity|]. split; [apply iand_inv; exact Hinv | apply iand_spec; exact Hinv].
+  - split; [reflexivity|]. split; [apply isub_inv; exact Hinv | apply isub_spec; exact Hinv].
+  - split; [reflexivity|]. split; [apply ixor_inv; exact Hinv | apply ixor_spec; exact Hinv].
+Qed.
+
+(* the model's pop() is an instance of CPop with the first edge as witness *)
+Theorem pop_is_cpop g : g <> [] ->
+  exists e g', pop g = Ok (g', e) /\ cstep g (CPop (Some e)) = Ok g'.
+Proof.
+  destruct g as [|m g0]; intros H; [congruence|].
+  exists (triple m), (discard (m :: g0) (triple m)). split; [reflexivity|].
+  cbn [cstep]. assert (contains (m :: g0) (triple m) = true) as C.
+  { apply contains_spec. left. reflexivity. }
+  rewrite C. reflexivity.
+Qed.
+
+Theorem cstep'_inv g o : CfgInv g -> CfgInv (cstep' g o).
+Proof.
+  intros Hinv. unfold cstep'. destruct (cstep g o) as [g'|er] eqn:E; [|exact Hinv].
+  exact (proj1 (cstep_ok g o g' Hinv E)).
+Qed.
+
+Lemma fold_cstep'_inv ops : forall g, CfgInv g -> CfgInv (fold_left cstep' ops g).
+Proof.
+  induction ops as [|o ops IH]; intros g Hinv; cbn [fold_left]; [exact Hinv|].
+  apply IH. apply cstep'_inv. exact Hinv.
+Qed.
+
+Theorem crun_inv : forall ops, CfgInv (crun ops).
+Proof. intros ops. unfold crun. apply fold_cstep'_inv. apply CfgInv_nil. Qed.
+
+Theorem crun_snoc ops o : crun (ops ++ [o]) = cstep' (crun ops) o.
+Proof. unfold crun. rewrite fold_left_app. reflexivity. Qed.
+
+Theorem node_out_spec cfg_of ir_of_node n :
+  node_out cfg_of ir_of_node n =
+  match ir_of_node with Some ir => out_edges (cfg_of ir) n | None => [] end.
+Proof. reflexivity. Qed.
+
+Theorem node_in_spec cfg_of ir_of_node n :
+  node_in cfg_of ir_of_node n =
+  match ir_of_node with Some ir => in_edges (cfg_of ir) n | None => [] end.
+Proof. reflexivity. Qed.
+
+(* a concrete instance, computed: parallel edges with different labels, a self-loop in both views *)
+Example cfg_example :
+  let g := crun [CAdd (1, 2, None); CAdd (1, 2, Some (0, true, false)); CAdd (1, 2, None); CAdd (2, 2, None)] in
+  len g = 3 /\ out_edges g 1 = [(1, 2, None); (1, 2, Some (0, true, false))] /\
+  out_edges g 2 = [(2, 2, None)] /\ in_edges g 2 = [(1, 2, None); (1, 2, Some (0, true, false)); (2, 2, None)] /\
+  edges (discard g (1, 2, None)) = [(1, 2, Some (0, true, false)); (2, 2, None)].
+Proof. vm_compute. repeat split. Qed.
+
+Print Assumptions edge_eqb_spec.
+Print Assumptions contains_spec.
+Print Assumptions add_inv.
+Print Assumptions add_spec.
+Print Assumptions add_present.
+Print Assumptions discard_inv.
+Print Assumptions discard_spec.
+Print Assumptions discard_absent.
+Print Assumptions len_spec.
+Print Assumptions len_add_absent.
+Print Assumptions len_discard_present.
+Print Assumptions parallel_edges.
+Print Assumptions parallel_discard_other.
+Print Assumptions parallel_discard.
+Print Assumptions out_edges_spec.
+Print Assumptions in_edges_spec.
+Print Assumptions out_edges_NoDup.
+Print Assumptions in_edges_NoDup.
+Print Assumptions self_loop_both.
+Print Assumptions edge_views.
+Print Assumptions node_out_spec.
+Print Assumptions node_in_spec.
+Print Assumptions remove_spec.
+Print Assumptions remove_err.
+Print Assumptions remove_ok.
+Print Assumptions pop_empty.
+Print Assumptions pop_err.
+Print Assumptions pop_ok.
+Print Assumptions update_inv.
+Print Assumptions update_spec.
+Print Assumptions ior_inv.
+Print Assumptions ior_spec.
+Print Assumptions isub_inv.
+Print Assumptions isub_spec.
+Print Assumptions iand_inv.
+Print Assumptions iand_spec.
+Print Assumptions ixor_inv.
+Print Assumptions ixor_spec.
+Print Assumptions clear_edges.
+Print Assumptions clear_inv.
+Print Assumptions le_set_spec.
+Print Assumptions eq_set_spec.
+Print Assumptions isdisjoint_spec.
+Print Assumptions cstep_ok.
+Print Assumptions cstep_err.
+Print Assumptions cstep_spec.
+Print Assumptions pop_is_cpop.
+Print Assumptions crun_inv.
